@@ -407,12 +407,31 @@ def stepPacketV (wrong : Bool) (c : CopyId) (p : Packet) (out : String) : Verdic
       | _, _, _ => .bad "unparsable output section"
     | _ => .bad "unparsable output"
 
+def isConnect : Packet → Bool
+  | .connect .. => true
+  | _ => false
+
+/-- fifth output section: the value written behind a non-empty buffer (the framing loops of both crates append
+    reply after reply). The model's encoder is a function of the value alone, so anything but `A=` for a
+    well-formed value breaks the tie. CONNECT is exempt: it is the first packet of a connection, written into an
+    empty buffer, and the unchanged code patches its flags byte at an index counted from the start of the
+    buffer (all four copies; recorded as an observation in DESIGN 11.4, not a violation of the C04 text). -/
+def stepPacketA (wrong : Bool) (c : CopyId) (p : Packet) (out : String) : Verdict :=
+  match out.splitOn "|" with
+  | [encS, sizeS, selfS, crossS, appS] =>
+    match stepPacketV wrong c p ("|".intercalate [encS, sizeS, selfS, crossS]) with
+    | .ok =>
+      if appS == "A=" || appS == "A-" || isConnect p || !mWfSpec c p then .ok
+      else .monitorFail "append-differs" s!"written behind a non-empty buffer the encoder's output differs from the write into an empty buffer ({appS}: ! = other bytes / count / prefix overwritten, E = Err, P = panic)"
+    | v => v
+  | _ => stepPacketV wrong c p out
+
 def stepPacket (wrong : Bool) (c : CopyId) (toks : List String) (out : String) : Verdict × String :=
   match pPacket toks with
   | none => (.bad "unparsable packet", "precondition/unparsable")
   | some p0 =>
     let p := normPacket p0
-    (stepPacketV wrong c p out, wfClass c p)
+    (stepPacketA wrong c p out, wfClass c p)
 
 def stepDec (c : CopyId) (h : String) (out : String) : Verdict :=
   match unhex h, pDecOut none ((out.drop 1).toString) with
